@@ -6,6 +6,12 @@ BASELINE_OFF = json.load(open('/root/.vp/BASELINE.json'))['cmd']
 
 # id -> (engine, category, technique, text, note, design_ref)
 CHECKS = {
+ 'C12': ('ptymon', 'exploration',
+   'runtime monitoring of the real -race binary with -one-shell on a pty: a connect(2) poller logging every result change, phases delimited by observed notices, token traffic across the listener close, exit status; bounded-progress with retry-alone',
+   'Held on 10 (quick) / 150 (thorough) runs over arrival order (i then o, o then i, /io, real curl|sh) x preceding junk (refused, duplicate, half-attached-then-dead attempts, refused requests that stay connected) x in-flight traffic x ending: every connect succeeded before the shell was complete, connects were refused after the close notice and never succeeded again, >= 200 tokens each way crossed the close intact, no callback help after the shell had gone, the process exited 0 after at most one entered line.',
+   'Close latency bound 20 s and exit bound 30 s with one retry alone; a freed port may be taken by another process (recognised by its certificate).',
+   'DESIGN.md C12'),
+
  'C09': ('httpmon', 'exploration',
    'runtime monitoring of raw hostile request targets against generated trees with canary files outside the root; token lookup oracle, reference route table, marker-delimited operator notice windows; real curl --path-as-is samples; -race',
    'Held on 6 (quick) / 60 (thorough) generated trees x 3 configurations (directory, single file, unset) x 400 / 3 000 raw targets each (plain/encoded/double-encoded dot segments, encoded slashes, backslashes, empty segments, NUL/control bytes, 8 KiB paths, absolute-form, *, authority-form, methods, ranges): no response ever carried a canary token, every 2xx body was exactly an in-tree file, range or listing, single-file and unset modes behaved as stated, /c, /i/x, /o/x and /io kept their meaning although such files exist, every file request was reported.',
